@@ -321,6 +321,12 @@ MUTATIONS = [
      'edits': [('gnpy/topology/spectrum_assignment.py', """    if not amp_bands:
         return equipment['SI']['default'].f_min, equipment['SI']['default'].f_max
 """, "")]},
+    {'id': 'c15-revert-band-edges-inward', 'props': ['C15'], 'tests': 'tests/test_spectrum_assignment.py',
+     'desc': 'revert of fix 90ae7050: band edges truncated towards 193.1 THz (a slot outside an off-grid band usable)',
+     'edits': [('gnpy/topology/spectrum_assignment.py', "        return ceil((freq - 193.1e12) / grid - 1e-6)",
+                "        return int((freq - 193.1e12) / grid)"),
+               ('gnpy/topology/spectrum_assignment.py', "        return floor((freq - 193.1e12) / grid + 1e-6)",
+                "        return int((freq - 193.1e12) / grid)")]},
     {'id': 'c11-revert-explicit-ispart', 'props': ['C11'], 'tests': 'tests/test_path_computation_functions.py tests/test_disjunction.py',
      'desc': 'revert of fix e50d35fe: explicit route returned without checking the listed nodes are crossed in order',
      'edits': [('gnpy/topology/request.py', "    if total_path is not None and ispart(nodes_list, total_path):",
